@@ -352,6 +352,16 @@ Definition reencode_with (orig : bool) (e : event) : bytes :=
             (e_valid e) (e_errstr e) (reenc_name_with orig e) (e_errbytes e) (e_arg e) (e_unl e) (e_creates e) (e_updates e)).
 Definition reencode : event -> bytes := reencode_with c02_reencode_orig_name.
 
+(* the original name of an error event is stored as the text pkg.entity; loadEventBuildError gets
+   the QName back with ParseQName, or - when the text does not have exactly one dot (3ba98d88a) -
+   by cutting it at the first dot *)
+Definition qname_text (pkg ent : bytes) : bytes := pkg ++ 46 :: ent.
+Fixpoint split_first_dot (t : bytes) : bytes * bytes :=
+  match t with
+  | [] => ([], [])
+  | x :: r => if x =? 46 then ([], r) else let '(p, e) := split_first_dot r in (x :: p, e)
+  end.
+
 (* ================= C. trace checking ================= *)
 
 (* appdef.ParseQName accepts a text with exactly one dot *)
